@@ -1187,19 +1187,21 @@ func (vr *voterecords) countWithExpels(
 	}
 
 	for i := range sorted {
-		wfacts := sorted[i][0].([]base.SuffrageExpelFact)      //nolint:forcetypeassert //...
 		wsfs := sorted[i][1].([]base.BallotSignFact)           //nolint:forcetypeassert //...
 		expels := sorted[i][2].([]base.SuffrageExpelOperation) //nolint:forcetypeassert //...
 
 		set, m := base.CountBallotSignFacts(wsfs)
 
-		newthreshold := threshold
-		quorum := uint(suf.Len())
-
-		if uint(len(wfacts)) > quorum-base.DefaultThreshold.Threshold(quorum) {
-			newthreshold = base.MaxThreshold
-			quorum = uint(suf.Len() - len(wfacts))
+		// NOTE expel voteproof is counted by the same rule as
+		// isaac.IsValidVoteproofWithSuffrage() validates it; the max
+		// threshold over the suffrage without the expel nodes.
+		rsuf, err := isaac.NewSuffrageWithExpels(suf, threshold, expels)
+		if err != nil {
+			continue
 		}
+
+		newthreshold := base.MaxThreshold
+		quorum := uint(rsuf.Len())
 
 		if uint(len(set)) < newthreshold.Threshold(quorum) {
 			continue
